@@ -143,6 +143,7 @@ type rev struct {
 	res    []string
 	callee *rfunc
 	decl   bool // assignment that declares its variable (:=, var)
+	aux    bool // ESetLen that only restates the length of a fixed-size array
 	loopID int
 }
 
@@ -552,6 +553,11 @@ func (rw *rwalker) lenTerm(e ast.Expr) *rterm {
 		lo, hi := rw.sliceBounds(x)
 		return tBin("Sub", hi, lo)
 	case *ast.CallExpr:
+		if id, ok := x.Fun.(*ast.Ident); ok && id.Name == "make" && len(x.Args) >= 2 {
+			if _, shadow := rw.vars["make"]; !shadow {
+				return rw.termOr(x.Args[1])
+			}
+		}
 		// []byte(x), string(x), Hash(x) ...: same length as x
 		if t, ok := rw.w.typeExpr(x.Fun, rw.p); ok && len(x.Args) == 1 && !rw.isFuncName(x.Fun) && rw.w.isSliceLike(t) {
 			return rw.lenTerm(x.Args[0])
